@@ -648,6 +648,14 @@ func (e *FEnc) evalCall(env *Env, x *Ex) (*Val, error) {
 			}
 		}
 		return nil, fmt.Errorf("len of sort %s", a.Sort)
+	case "samearray": // samearray(a, b): the two slices are views of the same backing array
+		if err := evalArgs(); err != nil {
+			return nil, err
+		}
+		if len(args) != 2 || args[0].Sort != "Slice" || args[1].Sort != "Slice" {
+			return nil, fmt.Errorf("samearray(slice, slice)")
+		}
+		return e.boolVal(fmt.Sprintf("(= (sl_base %s) (sl_base %s))", e.term(args[0]), e.term(args[1]))), nil
 	case "in": // in(k, m)
 		if err := evalArgs(); err != nil {
 			return nil, err
